@@ -66,16 +66,19 @@ static std::vector<std::string> sched_gen(const GenArgs &ga) {
   static const int pden[] = {4, 16, 64, 256, 1024, 4096};
   int nslots = 1 + (int)sw.below(3);
   bool init_first = sw.chance(1, 3);   // some tasks start with orc_init(), others rely on the wrappers
-  pl.push_back(strf("cfg tasks=%d strategy=%s p=%d pct_d=%d schedseed=%llu slots=%d", ntasks, st.c_str(), pden[sw.below(6)],
-                    1 + (int)sw.below(3), (unsigned long long)(stream(ga.seed, ST_SCHED).next() >> 8), nslots));
+  // a quarter of the runs also meet an unreliable OS while they compile concurrently
+  static const char *fsmodes[] = {"ok", "ok", "ok", "flaky-mmap", "flaky-mkstemp", "noexec-dirs", "all-denied"};
+  std::string fsmode = fsmodes[sw.below(7)];
+  pl.push_back(strf("cfg tasks=%d strategy=%s p=%d pct_d=%d schedseed=%llu slots=%d fs=%s", ntasks, st.c_str(), pden[sw.below(6)],
+                    1 + (int)sw.below(3), (unsigned long long)(stream(ga.seed, ST_SCHED).next() >> 8), nslots, fsmode.c_str()));
   int ops_per_task = 2 + (int)sw.below(thorough ? 7 : 5);
   // workload mix is itself a swarm choice
   int w_wrapper = 2 + (int)sw.below(6), w_private = (int)sw.below(5), w_publish = (int)sw.below(4), w_use = (int)sw.below(5),
-      w_take = (int)sw.below(3), w_churn = (int)sw.below(4), w_init = 1;
+      w_take = (int)sw.below(3), w_churn = (int)sw.below(4), w_hoard = sw.chance(1, 3) ? 3 : 0, w_init = 1;
   for (int t = 0; t < ntasks; t++) {
     for (int i = 0; i < ops_per_task; i++) {
       std::string l = strf("t%d op ", t);
-      int tot = w_wrapper + w_private + w_publish + w_use + w_take + w_churn + w_init;
+      int tot = w_wrapper + w_private + w_publish + w_use + w_take + w_churn + w_hoard + w_init;
       int x = (int)pr.below(tot);
       if (i == 0 && init_first && pr.chance(1, 2)) x = tot - 1;
       else if (i == 0 && pr.chance(1, 2)) x = 0;   // first calls of wrappers race
@@ -99,6 +102,11 @@ static std::vector<std::string> sched_gen(const GenArgs &ga) {
         l += strf("take slot=%d n=%d ds=%llu", (int)pr.below(nslots), 1 + (int)pr.below(40), (unsigned long long)(dr.next() >> 20));
       } else if ((x -= w_churn) < 0) {
         l += strf("churn spec=gen:%llu:%d:8:1 n=%d ds=%llu", (unsigned long long)(pr.next() >> 16), 1 + (int)pr.below(20), 1 + (int)pr.below(40),
+                  (unsigned long long)(dr.next() >> 20));
+      } else if ((x -= w_hoard) < 0) {
+        // several large functions kept alive until the task ends: regions fill up and new ones are
+        // created while other tasks allocate and free
+        l += strf("hoard k=%d seed=%llu n=%d ds=%llu", 3 + (int)pr.below(5), (unsigned long long)(pr.next() >> 16), 1 + (int)pr.below(40),
                   (unsigned long long)(dr.next() >> 20));
       } else {
         l += "init";
@@ -324,7 +332,31 @@ static void op_take(int tid, const std::vector<std::string> &w) {
   g_ctx->c->count("sched.taken_and_freed_by_other_task");
 }
 
+struct Held { OrcCode *code; std::shared_ptr<ProgMeta> meta; OrcProgram *twin; };
+
+static void op_hoard(int tid, const std::vector<std::string> &w, int opi, std::vector<Held> &held) {
+  int k = (int)kvi(w, "k", 4);
+  Rng r(kvu(w, "seed", 1));
+  for (int i = 0; i < k; i++) {
+    std::string spec = strf("gen:%llu:%d:8:1", (unsigned long long)(r.next() >> 16), 14 + (int)r.below(14));
+    std::string name = strf("t%dh%d_%d", tid, opi, i);
+    auto meta = std::make_shared<ProgMeta>();
+    OrcProgram *p = build_program(spec, name, meta.get());
+    OrcProgram *twin = make_twin(spec, name);
+    int res = orc_program_compile(p);
+    OrcCode *code = ORC_COMPILE_RESULT_IS_FATAL(res) ? nullptr : orc_program_take_code(p);
+    orc_program_free(p);
+    if (code) held.push_back(Held{code, meta, twin}); else orc_program_free(twin);
+  }
+  if (!held.empty()) {
+    Held &h = held[r.below(held.size())];
+    run_and_check(tid, nullptr, h.code, *h.meta, h.twin, RUN_EXEC, (int)kvi(w, "n"), kvu(w, "ds"), "hoarded code run");
+  }
+  g_ctx->c->count("sched.hoard_ops");
+}
+
 static void task_main(int tid) {
+  std::vector<Held> held;
   auto &ops = g_ctx->task_ops[tid];
   for (size_t i = 0; i < ops.size(); i++) {
     auto &w = ops[i];
@@ -341,8 +373,15 @@ static void task_main(int tid) {
     else if (op == "publish") op_publish(tid, w, (int)i);
     else if (op == "use") op_use(tid, w);
     else if (op == "take") op_take(tid, w);
+    else if (op == "hoard") op_hoard(tid, w, (int)i, held);
     g_ctx->ops_done++;
     rt::yield_hint();
+  }
+  // everything this task kept alive is run once more (its bytes must have survived the others) and freed
+  for (auto &h : held) {
+    run_and_check(tid, nullptr, h.code, *h.meta, h.twin, RUN_EXEC, 16, 1234 + tid, "hoarded code run at task end");
+    orc_code_free(h.code);
+    orc_program_free(h.twin);
   }
 }
 
@@ -418,6 +457,13 @@ static void sched_run(const std::vector<std::string> &plan, Child &c) {
   fs::reset();
   fs::enable(true);
   fs::set_dir("/tmp", fs::P_OK);
+  std::string fsmode = kv(cfg_w, "fs", "ok");
+  if (fsmode == "flaky-mmap") fs::set_flaky(fs::K_MMAP, 3);
+  else if (fsmode == "flaky-mkstemp") fs::set_flaky(fs::K_MKSTEMP, 2);
+  else if (fsmode == "noexec-dirs") {
+    setenv("XDG_RUNTIME_DIR", "/sim/xdg", 1); setenv("HOME", "/sim/home", 1);
+    fs::set_dir("/sim/xdg", fs::P_NOEXEC); fs::set_dir("/sim/home", fs::P_FULL); fs::set_dir("/tmp", fs::P_NOEXEC);
+  } else if (fsmode == "all-denied") { fs::set_dir("/tmp", fs::P_NOEXEC); fs::set_execmem(false); }
   // the debug sink must be in place before any task runs (setting it is not part of the race)
   install_debug_sink();
   std::string shape_ref = pristine_registry_shape();
@@ -436,6 +482,10 @@ static void sched_run(const std::vector<std::string> &plan, Child &c) {
   c.count("sched.mutex_blocks", s.mutex_blocks);
   c.count("sched.atomic_ops", s.atomic_ops);
   c.count(std::string("sched.strategy.") + st);
+  c.count(std::string("sched.fs.") + fsmode);
+  c.count("fault.flaky_fired", fs::flaky_fired());
+  if (fs::open_fds() != 0)
+    c.violation("fd-leak", "descriptor-open-after-run", strf("%d simulated descriptor(s) still open after all tasks finished (%s)", fs::open_fds(), fs::open_fd_desc().c_str()));
   c.count("sched.tasks", ntasks);
   c.state(s.interleaving_hash);
   for (auto &e : rt::realised()) c.res.sched.push_back(strf("sw %d %llu %d", e.task, (unsigned long long)e.yield, e.next));
